@@ -26,7 +26,7 @@ def _data(rng, torch, dtype):
 def _full64(torch, x, k):
     """dense value of x * 2**-k in double precision (the first core is rescaled exactly before the contraction)"""
     wide = torch.complex128 if x.cores[0].is_complex() else torch.float64
-    cs = [c.detach().to(wide).resolve_conj().numpy() for c in x.cores]
+    cs = [c.detach().to(wide).resolve_conj().resolve_neg().numpy() for c in x.cores]
     cs[0] = np.ldexp(cs[0].real, -k) + (1j * np.ldexp(cs[0].imag, -k) if np.iscomplexobj(cs[0]) else 0)
     return ttgen.ref_full(cs)
 
